@@ -19,7 +19,7 @@ import tokenize
 import warnings
 from typing import Iterator
 
-PRELUDE = "from typing import Any, Callable, Literal, Optional, Union, cast\na: int\nc: Any\n"
+PRELUDE = "import types\nfrom typing import Any, Callable, Literal, Optional, Union, cast\na: int\nc: Any\n"
 ATOMS = ("a", "b", "c")
 
 BINOPS = ["+", "-", "*", "/", "//", "%", "**", "@", "<<", ">>", "&", "|", "^"]
